@@ -83,7 +83,7 @@ def expected_for(root, arg):
             return ("files", [os.path.normpath(arg)])
         return ("reject", os.path.basename(p))
     out = []
-    for dp, dns, fns in os.walk(p):
+    for dp, dns, fns in os.walk(p, followlinks=True):
         for fn in fns:
             if is_source(fn) and os.path.isfile(os.path.join(dp, fn)):
                 out.append(os.path.normpath(os.path.relpath(os.path.join(dp, fn), root)))
@@ -96,7 +96,7 @@ def expected_visible(root, arg):
     if os.path.isfile(p):
         return [os.path.normpath(arg)] if is_source(os.path.basename(p)) else []
     out = []
-    for dp, dns, fns in os.walk(p):
+    for dp, dns, fns in os.walk(p, followlinks=True):
         dns[:] = [d for d in dns if not d.startswith(".")]
         for fn in fns:
             if is_source(fn) and not fn.startswith(".") and os.path.isfile(os.path.join(dp, fn)):
@@ -119,10 +119,14 @@ def run_case(sh, root, args, opts, r, gitignored=None, label="args"):
     sh.count("c15.selection_equals_walk")
     sh.tally("cases", label)
     tree = []
+    links = []
     for dp, dns, fns in os.walk(root):
         for fn in fns:
             tree.append(os.path.relpath(os.path.join(dp, fn), root))
-    case = {"mode": "tree", "argv": opts + args, "tree": sorted(tree), "label": label, "gitignore": gitignored}
+        for dn in dns:
+            if os.path.islink(os.path.join(dp, dn)):
+                links.append([os.path.relpath(os.path.join(dp, dn), root), sorted(os.listdir(os.path.join(dp, dn)))])
+    case = {"mode": "tree", "argv": opts + args, "tree": sorted(tree), "label": label, "gitignore": gitignored, "dir_links": links}
     if run.timeout or run.trace is None and not run.traceback():
         sh.inconclusive.append("CLI run gave no trace")
         return
@@ -196,10 +200,31 @@ def run_shard(spec):
     sh = Shard(max_per_sig=3)
     r = random.Random("c15/%s/%d" % (spec["seed"], spec["shard"]))
     have_git = shutil.which("git") is not None
+    exts = []
     for k in range(spec["n"]):
         root = tempfile.mkdtemp(prefix="nv_c15_")
         try:
             files, dirs = make_tree(root, r)
+            if k % 2 == 1:
+                # links: a directory outside the tree linked below it, a source linked under another name
+                # ("found recursively under a named directory" is read path-wise, as the file system resolves paths)
+                ext = tempfile.mkdtemp(prefix="nv_c15x_")
+                exts.append(ext)
+                for nm in r.sample(["v.c", "v.h", "notes.txt", "w x.c", ".dot.c"], r.randint(1, 4)):
+                    with open(os.path.join(ext, nm), "w") as f:
+                        f.write(SRC)
+                where = r.choice(dirs)
+                ln = os.path.join(where, r.choice(["vendor", "lnk.c", "ext lib"]))
+                if not os.path.lexists(os.path.join(root, ln)):
+                    os.symlink(ext, os.path.join(root, ln))
+                    dirs.append(ln)
+                    sh.tally("cases", "tree_with_directory_link")
+                srcs0 = [f for f in files if is_source(os.path.basename(f))]
+                if srcs0:
+                    fl = os.path.join(r.choice(dirs), "flink.c")
+                    if not os.path.lexists(os.path.join(root, fl)):
+                        os.symlink(os.path.abspath(os.path.join(root, srcs0[0])), os.path.join(root, fl))
+                        files.append(fl)
             items = files + [d for d in dirs if d]
             # (1) several argument lists on this tree
             for _ in range(5):
@@ -250,6 +275,9 @@ def run_shard(spec):
             sh.sample({"tree": sorted(files)[:8], "argv": "five random argument lists, none, --use-gitignore"}, cap=1)
         finally:
             shutil.rmtree(root, ignore_errors=True)
+            for e in exts:
+                shutil.rmtree(e, ignore_errors=True)
+            del exts[:]
     return sh.result()
 
 
@@ -260,6 +288,14 @@ def replay(case, sh):
             os.makedirs(os.path.join(root, os.path.dirname(rel)), exist_ok=True)
             with open(os.path.join(root, rel), "w") as f:
                 f.write(SRC if rel != ".gitignore" else "")
+        ext = None
+        for rel, names in case.get("dir_links") or []:
+            ext = tempfile.mkdtemp(prefix="nv_c15x_")
+            for nm in names:
+                with open(os.path.join(ext, nm), "w") as f:
+                    f.write(SRC)
+            os.makedirs(os.path.join(root, os.path.dirname(rel)), exist_ok=True)
+            os.symlink(ext, os.path.join(root, rel))
         argv = list(case["argv"])
         opts = [a for a in argv if a == "--use-gitignore"]
         args = [a for a in argv if a != "--use-gitignore"]
